@@ -136,7 +136,7 @@ pub struct Outcome {
 	pub error: Option<String>,
 }
 
-const WAIT: Duration = Duration::from_millis(300);
+const WAIT: Duration = Duration::from_millis(1500);
 
 /// One execution of operator `op` over `n` items with concurrency window `window`, following
 /// `prefix` and then the default decision (index 0 of the menu).
